@@ -141,6 +141,33 @@ theorem C15_roland_audio_prefix (b : List Nat) (cut : Nat) (cl : List Nat)
   rw [← clipId (cl.map (clusterData (Img.ofBytes (b.take cut)))), ← clipId (cl.map (clusterData (Img.ofBytes b)))]
   simpa using key
 
+open Smpl.Roland in
+/-- **C15 (Roland sample audio, reverse modes).** The reversed read of a window of whole samples
+that lies inside the chain: from the image cut off at any byte it is a prefix of the reversed read
+from the complete image (the blocks are read from the end of the window; what survives is the
+beginning of the reversed audio). -/
+theorem C15_roland_reverse_prefix (b : List Nat) (cut : Nat) (cl : List Nat)
+    (hin : ∀ c ∈ cl, DATA_FAT_OFF + (c + 1) * CLUSTER ≤ b.length) (off len : Nat)
+    (heven : len % 2 = 0) (hwin : off + len ≤ cl.length * CLUSTER) :
+    readReversed (chainHoley (Img.ofBytes (b.take cut)) cl) off len <+:
+      readReversed (chainHoley (Img.ofBytes b) cl) off len := by
+  unfold chainHoley
+  apply readReversed_pieces_prefix
+  · simp
+  · intro j h1 h2
+    simp only [List.getElem_map]
+    exact cluster_prefix b cut _ (hin _ (List.getElem_mem _))
+  · intro q hq
+    rw [List.mem_map] at hq
+    obtain ⟨c, hc, rfl⟩ := hq
+    rw [Smpl.Props.C02.C02_cluster_read b c (hin c hc)]
+    have := hin c hc
+    have e : (c + 1) * CLUSTER = c * CLUSTER + CLUSTER := by rw [Nat.add_mul]; simp
+    simp only [List.length_take, List.length_drop]
+    omega
+  · exact heven
+  · simpa using hwin
+
 /-! ## the WAV around whatever PCM results -/
 
 /-- whatever prefix results, the file written around it is a well-formed WAV (C04): the RIFF and
